@@ -35,6 +35,7 @@ from ..core import Ctx, HarnessError, Report, Violation, jhash, mix32
 from ..gen_state import Stream
 from .. import rsclient
 from . import c13_machine as M
+from . import c13_live as L
 
 PROPERTY = "C13"
 RULE = ("histories over (mti, sti, enabled): all period pairs in {0..12}^2 (complete, both tiers) plus sampled "
@@ -1390,8 +1391,28 @@ def _machine_shard(task: Tuple[int, str, List[Tuple[Any, ...]]]) -> Report:
     return rep
 
 
+def _live_shard(task: Tuple[int, str, List[Tuple[Any, ...]]]) -> Report:
+    """Round 5: host life-cycle layer (c13_live.py)."""
+    seed, tier, configs = task
+    rep = Report()
+    cases = [L.gen_from_config(seed, cfg) for cfg in configs]
+    n = 0
+    for i in range(0, len(cases), 64):
+        chunk = cases[i:i + 64]
+        for case, (vs, facts) in zip(chunk, L.evaluate_live(chunk)):
+            for v in vs:
+                rep.violate(v)
+            n += 1
+            sample = case if (n % 37 == 3 and len(case["ops"]) <= 45) else None
+            rep.case(L.nontrivial_key(case, facts), L.labels(case, facts), sample)
+            rep.extra["live_ticks"] = rep.extra.get("live_ticks", 0) + facts.get("ticks", 0)
+    return rep
+
+
 def _any_shard(task: Tuple[str, Any]) -> Report:
     kind, payload = task
+    if kind == "live":
+        return _live_shard(payload)
     return _shard(payload) if kind == "core" else _machine_shard(payload)
 
 
@@ -1402,15 +1423,21 @@ def run(ctx: Ctx) -> Report:
     mconfigs = M.plan(ctx.seed, ctx.tier)
     nshards = 16 if ctx.quick else 64
     nm = 16 if ctx.quick else 64
+    lconfigs = L.plan(ctx.seed, ctx.tier)
+    nlive = 16 if ctx.quick else 64
     tasks: List[Tuple[str, Any]] = []
     for i in range(max(nshards, nm)):     # interleave so both layers spread over the pool
         if i < nshards:
             tasks.append(("core", (ctx.seed, ctx.tier, configs[i::nshards])))
         if i < nm:
             tasks.append(("machine", (ctx.seed, ctx.tier, mconfigs[i::nm])))
+        if i < nlive:
+            tasks.append(("live", (ctx.seed, ctx.tier, lconfigs[i::nlive])))
     rep = ctx.merge_reports(ctx.pmap(_any_shard, tasks))
     rep.rule = RULE
-    rep.assumptions = list(ASSUMPTIONS)
+    rep.assumptions = list(ASSUMPTIONS) + list(L.ASSUMPTIONS)
+    rep.extra["live_cases_planned"] = {"async": sum(1 for c in lconfigs if c[0] == "async"),
+                                       "rollback": sum(1 for c in lconfigs if c[0] == "rollback")}
     rep.extra["small_period_pairs_covered"] = len({(c[0], c[1]) for c in configs if c[0] <= 12 and c[1] <= 12})
     plain = [c for c in mconfigs if not isinstance(c[0], str)]
     irqc = [c[1:] for c in mconfigs if c[0] == "irq"]
@@ -1429,6 +1456,8 @@ def replay(ctx: Ctx, case: Dict[str, Any]) -> List[Violation]:
     rsclient.build()
     if case.get("layer") == "machine":
         return M.evaluate_machine([case])[0][0]
+    if case.get("layer") == "live":
+        return L.evaluate_live([case])[0][0]
     vs, _ = evaluate([case])[0]
     return vs
 
@@ -1452,6 +1481,50 @@ def shrink(ctx: Ctx, v: Violation) -> Violation:
                 hi, best = mid, hit[0]
             else:
                 lo = mid + 1
+        return best
+
+    if v.case.get("layer") == "live":
+        # truncate after the failing op (ops of a live case are self-contained prefixes), then drop single ops
+        # that do not feed a later one (captures stay)
+        ops = list(v.case["ops"])
+
+        def lprobe(cand: List[List[Any]]) -> Optional[Violation]:
+            have = set()
+            for o in cand:
+                if o[0] == "c":
+                    have.add(int(o[1]))
+                elif o[0] == "L" and int(o[1]) not in have:
+                    return None
+            if v.case.get("flavour") == "async":
+                cyc = [int(o[1]) for o in cand if o[0] == "a"]
+                if any(b <= a for a, b in zip(cyc, cyc[1:])):
+                    return None
+            c2 = dict(v.case)
+            c2["ops"] = cand
+            if c2.get("entry") == "run_for":
+                c2["run_for_cycles"] = max([int(o[1]) for o in cand if o[0] == "a"] or [0])
+            for w in L.evaluate_live([c2])[0][0]:
+                if w.key() == key:
+                    return w
+            return None
+
+        lo, hi = 1, len(ops)
+        while lo < hi and time.time() - t0 < 30:
+            mid = (lo + hi) // 2
+            w = lprobe(ops[:mid])
+            if w is not None:
+                hi, best = mid, w
+            else:
+                lo = mid + 1
+        ops = list(best.case["ops"])
+        i = 0
+        while i < len(ops) and time.time() - t0 < 50:
+            cand = ops[:i] + ops[i + 1:]
+            w = lprobe(cand) if cand else None
+            if w is not None:
+                ops, best = cand, w
+            else:
+                i += 1
         return best
 
     def probe(ops: List[List[Any]]) -> Optional[Violation]:
